@@ -301,6 +301,14 @@ func GenDAG(t *rapid.T, epoch uint32, ids []idx.ValidatorID, weights []pos.Weigh
 				}
 			}
 			others = append(others, evs[pi])
+			// two direct parents by one forking validator (events of different branches): allowed by the event
+			// checks, and the only way to see a fork without a common descendant of the branches
+			if isForker[u] && len(evs) >= 2 && len(others) < maxParents+1 && rapid.IntRange(0, 3).Draw(t, "secondParentOfForker") == 0 {
+				pj := rapid.IntRange(0, len(evs)-1).Draw(t, "secondParentIdx")
+				if pj != pi {
+					others = append(others, evs[pj])
+				}
+			}
 		}
 		// a forker may also reference one of its own other branches as an ordinary parent
 		if isForker[creator] && len(own) > 1 && rapid.IntRange(0, 9).Draw(t, "ownBranchParent") == 0 {
